@@ -39,6 +39,8 @@ class Table(ReverseProxyBasePlugin):
             (r'/multi', [b'http://m1.example:8081/one', b'http://m2.example', b'https://m3.example/three']),
             (r'/multi/x', [b'http://shadowed.example/never']),
             (r'/tls$', [b'https://sec.example:8443/s']),
+            (r'/p1$', [b'http://same.example:9001/one']),
+            (r'/p2$', [b'http://same.example:9002/two']),
             r'/dyn/url',
             r'/dyn/lit',
             r'/dyn/mut$',
@@ -77,6 +79,8 @@ TARGETS = {
     'tls': [('sec.example', 8443, True, b'/s')],
     'dynurl': [('dyn.example', 9000, False, b'/d')],
     'dynmut': [('up1.example', 80, False, b'/get?id=7')],
+    'p1': [('same.example', 9001, False, b'/one')],
+    'p2': [('same.example', 9002, False, b'/two')],
 }
 
 
@@ -94,6 +98,10 @@ def _route_of(path):
         return 'dynlit'
     if path == '/dyn/mut':
         return 'dynmut'
+    if path == '/p1':
+        return 'p1'
+    if path == '/p2':
+        return 'p2'
     return None
 
 
@@ -120,6 +128,9 @@ def route(p0: int, p1: int, p2: int, idx: int, v0: int, d0: int, d1: int) -> boo
         return skip()
     body = B(d0, d1)[:blen]
     req = method + b' ' + path_b + b' HTTP/1.1\r\nHost: front.example\r\nX-K: ' + B(v0) + b'\r\n'
+    if CFG.get('upgrade'):
+        # a websocket handshake addressed to a reverse-proxy route is a request like any other: it is forwarded
+        req = req + b'Connection: Upgrade\r\nUpgrade: websocket\r\nSec-WebSocket-Key: dGhlIHNhbXBsZSBub25jZQ==\r\nSec-WebSocket-Version: 13\r\n'
     if blen:
         req = req + b'Content-Length: ' + (b'%d' % blen) + b'\r\n'
     req = req + b'\r\n' + body
@@ -196,12 +207,29 @@ def route(p0: int, p1: int, p2: int, idx: int, v0: int, d0: int, d1: int) -> boo
         run(h.handle_events([], [cs.fd]))
         before = len(envkit.pending(h.plugin.route.upstream)) + len(us.out)
         nconn = len(env.connects)
-        p2 = b'/dyn/lit' if follow == 'lit' else b'/nothing-here'
+        p2 = b'/dyn/lit' if follow == 'lit' else (b'/p2' if follow == 'otherport' else b'/nothing-here')
         cs.inq.append(b'GET ' + p2 + b' HTTP/1.1\r\nHost: front.example\r\n\r\n')
         try:
             td = run(h.handle_events([cs.fd], []))
         except Exception as e:
             return fail('exception on the follow-up request', exc=repr(e))
+        if follow == 'otherport':
+            # the follow-up request names a route whose upstream is the SAME host on ANOTHER port: it goes there, not onto the
+            # connection that is already open to that host
+            if len(env.connects) != nconn + 1 or env.connects[nconn][0] != ('same.example', 9002):
+                return fail('follow-up request to the same host on another port did not open a connection to that port',
+                            connects=repr([a for a, s_ in env.connects]))
+            if len(us.out) + 0 != before - len(envkit.pending(h.plugin.route.upstream)) and False:
+                pass
+            us2 = env.connects[nconn][1]
+            sent2 = envkit.pending(h.plugin.route.upstream)
+            try:
+                m2 = refhttp.read_message(sent2, False)
+            except refhttp.Malformed as e:
+                return fail('follow-up request sent upstream is malformed', why=str(e), sent=repr(sent2[:80]))
+            if m2['start'][1] != b'/two':
+                return fail('follow-up request not forwarded with its route\'s URL path', got=repr(m2['start'][1]))
+            return ok()
         if len(env.connects) != nconn:
             return fail('follow-up request that matches no upstream route caused an outbound connection', connects=repr(env.connects[nconn:]))
         up = h.plugin.route.upstream
@@ -259,9 +287,9 @@ def sequence(v0: int, order: int) -> bool:
 def selftest():
     import re
     # oracle validation: _route_of agrees with first-match re.match over the table on sample paths
-    pats = [(r'/get$', 'get'), (r'/multi', 'multi'), (r'/multi/x', 'multi'), (r'/tls$', 'tls'), (r'/dyn/url', 'dynurl'), (r'/dyn/lit', 'dynlit'), (r'/dyn/mut$', 'dynmut')]
+    pats = [(r'/get$', 'get'), (r'/multi', 'multi'), (r'/multi/x', 'multi'), (r'/tls$', 'tls'), (r'/p1$', 'p1'), (r'/p2$', 'p2'), (r'/dyn/url', 'dynurl'), (r'/dyn/lit', 'dynlit'), (r'/dyn/mut$', 'dynmut')]
     n = 0
-    for p in ['/get', '/get/', '/getx', '/ge', '/multi', '/multi/x', '/multiple', '/tls', '/tlsx', '/dyn/url', '/dyn/urlz', '/dyn/lit', '/dyn/li', '/dyn/mut', '/dyn/mutx',
+    for p in ['/get', '/get/', '/getx', '/ge', '/multi', '/multi/x', '/multiple', '/tls', '/tlsx', '/dyn/url', '/dyn/urlz', '/dyn/lit', '/dyn/li', '/dyn/mut', '/dyn/mutx', '/p1', '/p2', '/p1x',
               '/', '/x', '/GET', '/api', '/get?x', '/tls?']:
         want = None
         for pat, nm in pats:
@@ -292,6 +320,11 @@ def obligations(tier):
         for prefix in ('/get', '/multi', '/dyn/url'):
             obs.append({'name': 'route.follow_%s.after%s' % (follow, prefix.replace('/', '_')), 'fn': 'route',
                         'cfg': {'rewrite': False, 'prefix': prefix, 'nsym': 0, 'method': 0, 'blen': 0, 'follow': follow}, 'timeout': T})
+    obs.append({'name': 'route.follow_otherport.after_p1', 'fn': 'route',
+                'cfg': {'rewrite': False, 'prefix': '/p1', 'nsym': 0, 'method': 0, 'blen': 0, 'follow': 'otherport'}, 'timeout': T})
+    for prefix in ('/get', '/multi', '/p1'):
+        obs.append({'name': 'route.upgrade.%s' % prefix.replace('/', '_'), 'fn': 'route',
+                    'cfg': {'rewrite': False, 'prefix': prefix, 'nsym': 0, 'method': 0, 'blen': 0, 'upgrade': True}, 'timeout': T})
     obs.append({'name': 'route.keep._dyn_mut+0.GET.b0', 'fn': 'route',
                 'cfg': {'rewrite': False, 'prefix': '/dyn/mut', 'nsym': 0, 'method': 0, 'blen': 0}, 'timeout': T})
     obs.append({'name': 'sequence.dynamic_then_static', 'fn': 'sequence', 'cfg': {}, 'timeout': T})
@@ -311,12 +344,12 @@ META = {
                  'overlapping shadowed route, https with port, dynamic returning a Url, dynamic returning a literal response); upstream choice '
                  'index symbolic; request path = 14 concrete prefixes + 0..2 symbolic visible characters (so it matches none/one/several routes); '
                  'methods GET/POST/PUT/DELETE; one header with a symbolic value byte; body 0..2 symbolic bytes; --rewrite-host-header on/off; '
-                 'the upstream reply (2 symbolic bytes) relayed back; a follow-up request on the same connection that matches no route / a literal route; sequences of 2-3 requests on new '
+                 'the upstream reply (2 symbolic bytes) relayed back; a follow-up request on the same connection that matches no route / a literal route / a route to the same host on another port; a websocket handshake addressed to a route; sequences of 2-3 requests on new '
                  'connections of the same process mixing a dynamic route that adjusts its parsed upstream URL with a static route naming the same URL',
         'thorough': 'up to 3 symbolic path characters on more prefixes',
     },
     'outside': 'TLS handshake with the upstream (wrap() replaced by a recorder), regexes other than the table\'s, dynamic routes returning a '
-               'ready TcpServerConnection, websocket upgrade through the reverse proxy',
+               'ready TcpServerConnection, websocket frames after an upgrade through the reverse proxy',
     'stubs': ['random.choice -> solver-chosen index', 'TcpServerConnection.wrap -> recorder', 'connect stub', 'FakeSocket',
               'reference reader vlib/refhttp.py'],
 }
